@@ -55,6 +55,7 @@ type memFile struct {
 	counts     [8]int
 	nfaults    int
 
+	slow            bool  // native runs: every write takes a moment (the background writer lags behind the transaction, as in the engine's sequential mode)
 	lastWriteOff    int64 // offset of the most recent WriteAt
 	finalSyncFailed bool  // an injected sync failure hit the sync that follows a header write
 }
@@ -122,6 +123,9 @@ func (m *memFile) Truncate(sz int64) error {
 }
 
 func (m *memFile) WriteAt(p []byte, off int64) (int, error) {
+	if m.slow && verifNative() {
+		verifNativeSleep()
+	}
 	short := m.faultKind == faultShortWrite
 	kind := faultWrite
 	if short {
